@@ -69,6 +69,9 @@ pub struct Handle {
     pub stream: Option<MuxStream>,
     pub wflag: Arc<Flag>,
     pub parked: bool,
+    /// the write side was shut down (a completed `poll_shutdown`) while a write call was parked with its
+    /// waker not woken — as when another task holding the stream shuts it down: that writer still sleeps
+    pub shut_while_parked: bool,
 }
 
 pub struct Sim {
@@ -236,7 +239,7 @@ impl Sim {
                     self.opens.remove(&req);
                     match r {
                         Ok(stream) => {
-                            self.handles.push(Handle { stream: Some(stream), wflag: Flag::new(false), parked: false });
+                            self.handles.push(Handle { stream: Some(stream), wflag: Flag::new(false), parked: false, shut_while_parked: false });
                             completions.push(format!("opendone {req} ok {}", self.handles.len() - 1));
                         }
                         Err(e) => completions.push(format!("opendone {req} {}", err_name(&e))),
@@ -310,7 +313,7 @@ impl Sim {
                     Poll::Ready(Err(e)) => err_name(&e).into(),
                     Poll::Ready(Ok(s)) => {
                         let line = format!("stream {} {} {}", self.handles.len(), hexd(&s.dest_host), s.dest_port);
-                        self.handles.push(Handle { stream: Some(s), wflag: Flag::new(false), parked: false });
+                        self.handles.push(Handle { stream: Some(s), wflag: Flag::new(false), parked: false, shut_while_parked: false });
                         line
                     }
                 }
@@ -333,6 +336,7 @@ impl Sim {
                 let d = unhexz(d).expect("hex");
                 let Some(x) = self.handles.get_mut(h) else { return "badhandle".into() };
                 let Some(s) = x.stream.as_ref() else { return "badhandle".into() };
+                x.shut_while_parked = false;
                 x.wflag.take();
                 let w = x.wflag.waker();
                 let cx = Context::from_waker(&w);
@@ -367,7 +371,11 @@ impl Sim {
                 let mut cx = Context::from_waker(&w);
                 match Pin::new(s).poll_shutdown(&mut cx) {
                     // (a shutdown call that completes leaves no write call pending)
-                    Poll::Ready(Ok(())) => { x.parked = false; "unit".into() }
+                    Poll::Ready(Ok(())) => {
+                        if x.parked && !x.wflag.is_set() { x.shut_while_parked = true; }
+                        x.parked = false;
+                        "unit".into()
+                    }
                     Poll::Ready(Err(e)) => format!("ioerr {:?}", e.kind()),
                     Poll::Pending => "pending".into(),
                 }
@@ -554,6 +562,7 @@ impl Sim {
     fn write(&mut self, h: usize, bufs: &[&[u8]]) -> String {
         let Some(x) = self.handles.get_mut(h) else { return "badhandle".into() };
         let Some(s) = x.stream.as_mut() else { return "badhandle".into() };
+        x.shut_while_parked = false;
         x.wflag.take();
         let w = x.wflag.waker();
         let mut cx = Context::from_waker(&w);
@@ -568,6 +577,7 @@ impl Sim {
     fn write_v(&mut self, h: usize, bufs: &[&[u8]]) -> String {
         let Some(x) = self.handles.get_mut(h) else { return "badhandle".into() };
         let Some(s) = x.stream.as_mut() else { return "badhandle".into() };
+        x.shut_while_parked = false;
         x.wflag.take();
         let w = x.wflag.waker();
         let mut cx = Context::from_waker(&w);
@@ -578,6 +588,13 @@ impl Sim {
             Poll::Ready(Err(e)) if e.kind() == std::io::ErrorKind::BrokenPipe => { x.parked = false; "brokenpipe".into() }
             Poll::Ready(Err(e)) => format!("ioerr {:?}", e.kind()),
         }
+    }
+
+    /// For a handle whose write side was shut down while a write call was parked: has that writer's waker
+    /// been woken since? (`None`: no such handle / not in that situation.)
+    #[must_use]
+    pub fn shut_while_parked_woken(&self, h: usize) -> Option<bool> {
+        self.handles.get(h).filter(|x| x.shut_while_parked && x.stream.is_some()).map(|x| x.wflag.is_set())
     }
 
     /// `idle | parked | woken` for the writer of handle `h`.
